@@ -196,7 +196,7 @@ def tree_specs(draw, taxa, max_leaves=6, fancy=True, blanks=True):
     n = draw(st.integers(1, min(max_leaves, len(taxa))))
     # comments are drawn before the shape (draws late in a big document come out minimal too often)
     extra_comments = draw(st.lists(st.one_of(meta_comments(), meta_comments(), st.sampled_from(COMMENTS + META_COMMENTS)),
-                                   max_size=3)) if fancy else []
+                                   max_size=2)) if fancy else []
     comment_spots = [draw(st.integers(0, 63)) for _ in extra_comments]
     spec = draw(shapes.shapes(min_leaves=n, max_leaves=n, max_arity=4, unifurcations=fancy))
     perm = list(draw(st.permutations(list(taxa))))
